@@ -155,7 +155,7 @@ def check(ctx, floors=True, only_literals=False):
         ctx.bad("C09.5", "missing-anchor/docs_from_scale_info", "", "docs_from_scale_info not found")
     else:
         expect_term(ctx, "C09.5", "docs-template", df["sp"], Norm(df).term(df["body"]),
-                    "Option::unwrap_or_default(then(P0.settings.should_gen_docs,T[#( # [ doc = #0 ] )*](P1)))",
+                    "if(P0.settings.should_gen_docs){T[#( # [ doc = #0 ] )*](P1)}else{T[]()}",
                     "docs on: one `#[doc = line]` per registry doc line, in order; docs off: nothing")
     ctx.expect(sorted({f for f, _t, _s in where["doc"]}) == ["TypeGenerator::docs_from_scale_info"] and len(where["doc"]) == 1, "C09.6", "literal/doc",
                where["doc"][0][2] if where["doc"] else "", "`doc` is emitted only by the docs template", "`doc` appears in: %s" % where["doc"])
